@@ -46,6 +46,7 @@ int cmd_c07(int argc, char **argv);
 int cmd_c06(int argc, char **argv);
 int cmd_c08(int argc, char **argv);
 int cmd_c16(int argc, char **argv);
+int cmd_c16s(int argc, char **argv);
 int cmd_c17(int argc, char **argv);
 int cmd_c19(int argc, char **argv);
 typedef struct { int kind; int fn; int ia[3]; double da[3]; char s[64]; } Query;   /* kind 0: numeric API_TABLE[fn]; 1..: see run_query in c16.c */
